@@ -432,6 +432,47 @@ def operator_call(o: int, i: int, j: int) -> bool:
     return H.done(ok)
 
 
+# ------------------------------------------------------------------ the function/method kind filter in host-composed contexts
+KIND_TEXTS = [("toUpper('abc')", 'err'), ("'abc'.toUpper()", 'ABC'), ('len([1, 2])', 2), ('[1, 2].len()', 2), ('str(1)', '1'),
+              ('1.str()', 'err'), ("int('3')", 3), ("'3'.int()", 'err'), ('[3, 1].orderBy($)', [1, 3]), ('orderBy([3, 1], $)', 'err'),
+              ('call(toUpper, [\'abc\'], {})', 'err'), ("call(toUpper, [], {}, 'abc')", 'ABC')]
+KTBOX = [(i,) for i in range(len(KIND_TEXTS))]
+
+
+def _kind_contexts():
+    from yaql.language import contexts
+    std = G.ROOT
+    app = std.create_child_context()
+    app['appvar'] = 1
+    return [std.create_child_context(),
+            contexts.MultiContext([std.create_child_context(), app.create_child_context()]),
+            contexts.MultiContext([app.create_child_context(), std.create_child_context().create_child_context()]),
+            contexts.LinkedContext(app.create_child_context(), std.create_child_context())]
+
+
+KIND_CTX = None
+
+
+def kind_filter(t: int, c: int) -> bool:
+    """
+    pre: 0 <= t < len(KIND_TEXTS) and 0 <= c < 4
+    post: _
+    """
+    global KIND_CTX
+    text, want = KIND_TEXTS[KTBOX[t][0]]
+    ci = KTBOX[c][0]
+    with H.NoTracing():
+        if KIND_CTX is None:
+            KIND_CTX = _kind_contexts()
+        got = outcome(text, {}, KIND_CTX[ci])
+        if want == 'err':
+            ok = got[0] == 'err' and got[1] in ('NoFunctionRegisteredException', 'NoMethodRegisteredException',
+                                                 'NoMatchingFunctionException', 'NoMatchingMethodException')
+        else:
+            ok = got[0] == 'ok' and same_value(got[1], want)
+    return H.done(ok)
+
+
 # ------------------------------------------------------------------ keyword names follow the convention of the context
 def _convention_contexts():
     import yaql
@@ -485,6 +526,9 @@ def conditions(tier, seed):
             'bounds': 'every binary operator function of the live registry (%d) x %d x %d operand values: call(name, [a, b], {}) vs '
                       'call(name, [a], {right => b}) vs call(name, [], {left => a, right => b}) (selectors; each path concrete)' % (
                           len(OPNAMES), len(OPVALS), len(OPVALS))},
+           {'name': 'kind_filter', 'func': 'kind_filter', 'timeout': 200,
+            'bounds': '%d calls of method-only / function-only / extension functions in both spellings (and through call()) evaluated in a '
+                      'plain child, two MultiContext compositions and a LinkedContext over the standard context' % len(KIND_TEXTS)},
            {'name': 'convention_names', 'func': 'convention_names', 'timeout': 200,
             'bounds': 'standard contexts created with the CamelCase and the Python naming convention in one process (both creation '
                       'orders of use): keyword names of multi-word parameters follow the context\'s own convention'}]
@@ -616,6 +660,10 @@ def replay(cond, args):
         return {'reproduced': True, 'key': 'C12/operator-call-spellings',
                 'what': 'call(%r, [a, b], {}) and its keyword spellings (right => b / left => a, right => b) disagree for a=%r b=%r' % (
                     OPNAMES[args['o']], OPVALS[args['i']], OPVALS[args['j']])}
+    if cond['func'] == 'kind_filter':
+        return {'reproduced': True, 'key': 'C12/kind-filter',
+                'what': '%s evaluated in host context #%d (0 plain child, 1-2 MultiContext, 3 LinkedContext): expected %r' % (
+                    KIND_TEXTS[args['t']][0], args['c'], KIND_TEXTS[args['t']][1])}
     if cond['func'] == 'convention_names':
         return {'reproduced': True, 'key': 'C12/convention-names',
                 'what': 'keyword names of %r do not follow the naming convention of the context they are evaluated in (contexts '
